@@ -354,6 +354,26 @@ def run_c17(rep, tier, seed):
                          f"ok = snapshot(whole).canon() == exp.canon() and not coherent(whole)\n")
                 G["compose-later-graph-wins"].case(not e4 and snapshot(whole).canon() == expo.canon() and not coherent(whole),
                                                    f"{name}: compose of overlapping pieces -> {e4 or snapshot(whole).canon()} expected {expo.canon()}", bodyo)
+        # subgraph on EDITED graphs: states reached by public editing histories (bonds removed under a descriptor, descriptors deleted ...)
+        from .history import reachable_states, rebuild
+        GE = Group(rep, f"C17/bounded/{kind}/after-editing/subgraph-is-induced")
+        seen = set()
+        for sref, hist in reachable_states(kind, seed, 6 if tier == "quick" else 60, 12 if tier == "quick" else 30):
+            g = rebuild(sref, hist)
+            st = snapshot(g)
+            key = repr(st.canon())
+            if key in seen or not st.atoms:
+                continue
+            seen.add(key)
+            distinct += 1
+            atoms = list(st.atoms)
+            for S in (atoms, rng.sample(atoms, rng.randint(0, len(atoms)))):
+                sub, err = safe(lambda: g.subgraph(list(S)))
+                exp = induced(st, S).canon()
+                body = (f"from vf.e3.history import rebuild\nfrom vf.e3.derive import induced\ng = rebuild({ref_code(sref)}, {list(hist)!r})\nst = snapshot(g)\n"
+                        f"sub = g.subgraph({list(S)!r})\nprint(snapshot(sub).canon()); print(induced(st, {list(S)!r}).canon())\nok = snapshot(sub).canon() == induced(st, {list(S)!r}).canon()\n")
+                GE.case(not err and snapshot(sub).canon() == exp, f"after {list(hist)}: subgraph({list(S)}) -> {err or snapshot(sub).canon()} expected {exp}", body, sample={"history": [repr(h) for h in hist]})
+        GE.close()
         for g_ in G.values():
             g_.close()
     rep.distinct_nontrivial = distinct
